@@ -19,6 +19,7 @@ import (
 	"encoding/json"
 	"fmt"
 	"io"
+	"math/rand"
 	"os"
 	"sort"
 	"strconv"
@@ -727,7 +728,12 @@ func (s *vsSim) stepCrash(ev vsEvent, k int, whatIfLine bool) (crashed bool, nmu
 	s.tr.obs(s, obs)
 	s.lastOp, s.lastObs = op, obs
 	if vsDebug {
-		fmt.Fprintf(os.Stderr, "DBG %s ev%d %s@n%d k=%d crashed=%v out=%d commits=%d :: %s\n", s.caseID, s.evno, ev.what, ev.node, k, crashed, len(out), len(commits), s.describe())
+		var ol vw.L
+		for _, sm := range out {
+			ol.Add(-9)
+			vsEncMsg(&ol, sm.m)
+		}
+		fmt.Fprintf(os.Stderr, "DBG %s ev%d %s@n%d k=%d crashed=%v out=%d commits=%d :: %s :: op=%s :: out=%s\n", s.caseID, s.evno, ev.what, ev.node, k, crashed, len(out), len(commits), s.describe(), vsTail(vw.Ints(op), 160), vsTail(vw.Ints(ol), 200))
 	}
 	s.monitor(n, ev, out, commits, wasLeader, prevTerm, crashed)
 	return
@@ -1086,9 +1092,136 @@ func (s *vsSim) describe() string {
 	var b strings.Builder
 	for _, n := range s.nodes[1:] {
 		fi, li, empty := n.wl.GetBound()
-		fmt.Fprintf(&b, "n%d{t=%d v=%s %s c=%d log=[%d..%d]%v snap=%d} ", n.i, n.st.term, n.st.voteFor, n.core.state.name(), n.core.committedIndex, fi, li, empty, n.sm.snapMeta.LastIndex)
+		fmt.Fprintf(&b, "n%d{t=%d v=%s %s c=%d log=[%d..%d]%v snap=%d", n.i, n.st.term, n.st.voteFor, n.core.state.name(), n.core.committedIndex, fi, li, empty, n.sm.snapMeta.LastIndex)
+		if vsDebug && n.role() == 2 {
+			for _, p := range n.core.leader.(*coreLeader).peers {
+				fmt.Fprintf(&b, " %s:n%d/m%d", p.ID, p.nextIndex, p.matchIndex)
+			}
+		}
+		b.WriteString("} ")
 	}
 	return b.String()
+}
+
+// ---------------------------------------------------------------- cloning the whole simulation
+
+func vsCloneMembershipPtr(m *Membership) *Membership {
+	if m == nil {
+		return nil
+	}
+	c := vsCopyMembership(*m)
+	return &c
+}
+
+func vsCloneCore(c *core, st *Storage) *core {
+	d := *c
+	d.storage = st
+	d.msgs = nil
+	d.committedEnts = nil
+	d.latestConf = vsCloneMembershipPtr(c.latestConf)
+	d.rand = rand.New(rand.NewSource(1))
+	f := *c.follower.(*coreFollower)
+	f.c = &d
+	d.follower = &f
+	cd := *c.candidate.(*coreCandidate)
+	cd.c = &d
+	if cd.votes != nil {
+		cd.votes = map[string]bool{}
+		for k, v := range c.candidate.(*coreCandidate).votes {
+			cd.votes[k] = v
+		}
+	}
+	d.candidate = &cd
+	l := *c.leader.(*coreLeader)
+	l.c = &d
+	if l.peers != nil {
+		l.peers = map[string]*peer{}
+		for k, p := range c.leader.(*coreLeader).peers {
+			pc := *p
+			l.peers[k] = &pc
+		}
+	}
+	d.leader = &l
+	switch c.state {
+	case c.follower:
+		d.state = d.follower
+	case c.candidate:
+		d.state = d.candidate
+	case c.leader:
+		d.state = d.leader
+	}
+	return &d
+}
+
+func vsCloneNode(n *vsNode) *vsNode {
+	m := *n
+	m.ctl = &vsMutCtl{}
+	m.st = &memState{voteFor: n.st.voteFor, term: n.st.term, myGUID: n.st.myGUID, seenGUIDs: map[string]uint64{}}
+	for k, v := range n.st.seenGUIDs {
+		m.st.seenGUIDs[k] = v
+	}
+	m.wl = NewMemLog()
+	if es := n.logEntries(); len(es) > 0 {
+		m.wl.Append(es...)
+	}
+	m.sm = &memSnapshotMgr{snapData: append([]byte(nil), n.sm.snapData...), snapMeta: n.sm.snapMeta}
+	if n.sm.snapData == nil {
+		m.sm.snapData = nil
+	}
+	m.sm.snapMeta.Membership = vsCloneMembershipPtr(n.sm.snapMeta.Membership)
+	m.stor = &Storage{State: &vsState{m.st, m.ctl}, SnapshotManager: &vsSnapMgr{m.sm, m.ctl}, log: &vsLog{m.wl, m.ctl}}
+	m.core = vsCloneCore(n.core, m.stor)
+	if n.pendingSnap != nil {
+		ps := *n.pendingSnap
+		m.pendingSnap = &ps
+	}
+	return &m
+}
+
+func (s *vsSim) clone() *vsSim {
+	c := &vsSim{prop: s.prop, caseID: s.caseID, cfg: s.cfg, nextCmd: s.nextCmd, evno: s.evno, quiet: true, tr: nil,
+		leaders: map[uint64]int{}, votes: map[[2]uint64]string{}, committed: map[uint64]*vsCommitted{},
+		grants: map[[2]uint64]string{}, viol: map[string]bool{}}
+	for k, v := range s.leaders {
+		c.leaders[k] = v
+	}
+	for k, v := range s.votes {
+		c.votes[k] = v
+	}
+	for k, v := range s.committed {
+		c.committed[k] = v
+	}
+	for k, v := range s.grants {
+		c.grants[k] = v
+	}
+	for k, v := range s.viol {
+		c.viol[k] = v
+	}
+	c.nodes = make([]*vsNode, len(s.nodes))
+	for i := 1; i < len(s.nodes); i++ {
+		c.nodes[i] = vsCloneNode(s.nodes[i])
+	}
+	c.soup = make([]*vsSoupMsg, len(s.soup))
+	for i, sm := range s.soup {
+		x := *sm
+		c.soup[i] = &x
+	}
+	return c
+}
+
+func vsSameProj(a, b *vsNode) bool {
+	var x, y vw.L
+	a.proj(&x)
+	b.proj(&y)
+	if len(x) != len(y) {
+		return false
+	}
+	for i := range x {
+		if x[i] != y[i] {
+			return false
+		}
+	}
+	return true
 }
 
 // ---------------------------------------------------------------- child process protocol
